@@ -21,11 +21,11 @@ Full statement / proved / missing
   `Equals` but not the same term — permuted Variant/Enum/Pattern members, Tuple size given vs implied — accept each other) is stated as
   a `def`, NOT yet proved; it is checked on the implementation for every generated pair (class `eq-not-asg-*`).
 * laws — `C03_top`, `C03_unit`, `C03_variant`, `C03_optional` PROVED.
-* monotonicity — PROVED per hole: `C03_mono_array`, `C03_mono_hash_key`, `C03_mono_hash_value`, `C03_mono_variant`, `C03_mono_optional`,
-  `C03_mono_notUndef`, `C03_mono_type`, `C03_mono_sensitive`, `C03_mono_iterable`.  Missing: Tuple slot and Struct member (checked on the
-  implementation, class `nonmono-*`).
-* widening — PROVED for every range position except the Tuple size: `C03_widen_int`, `_float`, `_timespan`, `_string`, `_collection`,
-  `_array`, `_hash`.
+* monotonicity — PROVED for every covariant hole the property lists: `C03_mono_array`, `C03_mono_hash_key`, `C03_mono_hash_value`,
+  `C03_mono_tuple` (any slot), `C03_mono_struct` (any member's value type), `C03_mono_variant`, `C03_mono_optional`, `C03_mono_notUndef`,
+  `C03_mono_type`, `C03_mono_sensitive`, `C03_mono_iterable` (sibling parts reflexive by `C03_refl`).
+* widening — PROVED for every range position: `C03_widen_int`, `_float`, `_timespan`, `_string`, `_collection`, `_array`, `_hash`, `_tuple`
+  (an explicit Tuple size).
 * transitivity — `C03_trans` is kept as a `def … : Prop`.  It is FALSE of the code: `C03_trans_fails_sfh` (PERMANENT: the by-specification
   Struct-from-Hash rule, known finding C03-trans-struct-from-hash) and `C03_trans_fails_iterable` (Iterable has no Struct arm, known finding
   C03-trans-iterable).  `C03_trans_partial` (stage 1) is PROVED, unbounded, for both settings of the rule: on the fragment `Ty.TF` = hereditarily
@@ -74,6 +74,15 @@ theorem C03_mono_variant (cfg : Cfg) (sfh : Bool) (pre post : List Ty) (a b : Ty
     asg cfg sfh (.variant (pre ++ a :: post)) (.variant (pre ++ b :: post)) = true :=
   mono_variant cfg sfh pre post a b hb
     (fun t ht => ⟨Ty.NoAlias.noAliasR t.w t (Nat.le_refl _) (hsib t ht).2, C03_refl cfg sfh t (hsib t ht).1 (hsib t ht).2⟩) h
+theorem C03_mono_tuple (cfg : Cfg) (sfh : Bool) (pre post : List Ty) (a b : Ty) (g : Option Rng)
+    (hsib : ∀ t ∈ pre ++ post, Ty.WF cfg t ∧ t.NoAlias) (h : asg cfg sfh a b = true) :
+    asg cfg sfh (.tuple (pre ++ a :: post) g) (.tuple (pre ++ b :: post) g) = true :=
+  mono_tuple cfg sfh pre post a b g (fun t ht => C03_refl cfg sfh t (hsib t ht).1 (hsib t ht).2) h
+theorem C03_mono_struct (cfg : Cfg) (sfh : Bool) (pre post : List Member) (n : String) (o : Bool) (t t' : Ty)
+    (hnd : NamesNodup (pre ++ (n, o, t) :: post))
+    (hsib : ∀ m ∈ pre ++ post, Ty.WF cfg m.2.2 ∧ m.2.2.NoAlias) (h : asg cfg sfh t t' = true) :
+    asg cfg sfh (.struct (pre ++ (n, o, t) :: post)) (.struct (pre ++ (n, o, t') :: post)) = true :=
+  mono_struct cfg sfh pre post n o t t' hnd (fun m hm => C03_refl cfg sfh m.2.2 (hsib m hm).1 (hsib m hm).2) h
 theorem C03_mono_optional (cfg : Cfg) (sfh : Bool) (a b : Ty) (hb : b.NoAliasR) (h : asg cfg sfh a b = true) :
     asg cfg sfh (.optional a) (.optional b) = true := mono_optional cfg sfh a b hb h
 theorem C03_mono_notUndef (cfg : Cfg) (sfh : Bool) (a b : Ty) (h : asg cfg sfh a b = true) :
@@ -99,6 +108,9 @@ theorem C03_widen_collection (cfg : Cfg) (sfh : Bool) (r r' : Rng) (hr : r'.sub 
     (h : asg cfg sfh (.coll r) b = true) : asg cfg sfh (.coll r') b = true := widen_coll cfg sfh r r' hr b hb h
 theorem C03_widen_array (cfg : Cfg) (sfh : Bool) (e : Ty) (r r' : Rng) (hr : r'.sub r = true) (b : Ty) (hb : b.NoAliasR)
     (h : asg cfg sfh (.array e r) b = true) : asg cfg sfh (.array e r') b = true := widen_array cfg sfh e r r' hr b hb h
+theorem C03_widen_tuple (cfg : Cfg) (sfh : Bool) (ts : List Ty) (r r' : Rng) (hr : r'.sub r = true) (b : Ty) (hb : b.NoAliasR)
+    (h : asg cfg sfh (.tuple ts (some r)) b = true) : asg cfg sfh (.tuple ts (some r')) b = true :=
+  widen_tuple cfg sfh ts r r' hr b hb h
 theorem C03_widen_hash (cfg : Cfg) (sfh : Bool) (k v : Ty) (r r' : Rng) (hr : r'.sub r = true) (b : Ty) (hb : b.NoAliasR)
     (h : asg cfg sfh (.hash k v r) b = true) : asg cfg sfh (.hash k v r') b = true := widen_hash cfg sfh k v r r' hr b hb h
 
